@@ -1,3 +1,4 @@
+import PcfgVerif.Generated.ProcessState
 import PcfgVerif.Properties.ProbsCore
 import PcfgVerif.Lemmas.SoftFloatLemmas
 import PcfgVerif.Generated.CliOptions
@@ -118,5 +119,13 @@ theorem C06_markov_always_listed (cov : Rat) (h0 : 0 < cov) (h1 : cov < 1) (n : 
   show ((n : Rat) / cov - n) / _ = _
   congr 1
   grind
+
+/-- **nothing outlives a call except the objects a caller holds** (regenerated from the four library packages): no module-level or
+class-level mutable container, no cache decorator or cache call (`functools.lru_cache`, `cache`), no mutable or computed default
+argument and no `global` statement anywhere in `lib_guesser`, `lib_trainer`, `lib_scorer`, `lib_princeling`.  The models of this file are
+functions of the objects handed to the code (grammar, detector, tables, memo table); this is the fact that lets them be: an answer cannot
+depend on what another object, an earlier ruleset in the same process or the other thread did -/
+theorem C06_no_process_wide_state : Generated.ProcessState.processWideState = [] := by
+  decide
 
 end Pcfg.C06
